@@ -17,19 +17,20 @@ mkdir -p "$OUT"
 export CARGO_NET_OFFLINE=true CARGO_TERM_COLOR=never
 cd /verif/harness || exit 2
 SHARDS=${VERIF_SANIT_SHARDS:-16}
-BUDGET=${VERIF_SANIT_BUDGET:-420}     # seconds per shard process
+BUDGET=${VERIF_SANIT_BUDGET:-540}     # seconds per shard process
 
-# property -> "tool:stride[:inner]" list
+# property -> "tool:N[:inner]" list. For the Miri stages N = cases per parallel loop and shard
+# (VERIF_TAKE, picked by hash), for ASan N = stride (every N-th case by hash).
 case "$ID" in
-  C01) STAGES="miri:900" ;;
-  C02) STAGES="miri:16000:16 asan:4" ;;
-  C09) STAGES="miri:500 asan:2" ;;
-  C10) STAGES="miri:700 asan:4" ;;
-  C18) STAGES="miri:240" ;;
-  C03) STAGES="mirirelaxed:1200 asan:2" ;;
-  C07) STAGES="mirirelaxed:150 asan:1" ;;
-  C15) STAGES="mirirelaxed:800 asan:1" ;;
-  C16) STAGES="mirirelaxed:30000 asan:4" ;;
+  C01) STAGES="miri:5" ;;
+  C02) STAGES="miri:3:64 asan:4" ;;
+  C09) STAGES="miri:4 asan:2" ;;
+  C10) STAGES="miri:1 asan:4" ;;
+  C18) STAGES="miri:8" ;;
+  C03) STAGES="mirirelaxed:60 asan:2" ;;
+  C07) STAGES="mirirelaxed:60 asan:1" ;;
+  C15) STAGES="mirirelaxed:30 asan:1" ;;
+  C16) STAGES="mirirelaxed:25 asan:4" ;;
   C04|C06|C08|C11|C12|C14) STAGES="asan:2" ;;
   *) STAGES="" ;;
 esac
@@ -71,10 +72,16 @@ for st in $STAGES; do
   esac
   pids=""
   nsh=$SHARDS
-  [ "$stride" -lt "$SHARDS" ] && nsh=$stride
-  [ "$nsh" -lt 1 ] && nsh=1
+  if [ "$tool" = asan ]; then
+    [ "$stride" -lt "$SHARDS" ] && nsh=$stride
+    [ "$nsh" -lt 1 ] && nsh=1
+    SAMPLING="VERIF_STRIDE=$stride"
+  else
+    # interpreter stages: N cases per loop and shard; VERIF_STRIDE only carries the shard count
+    SAMPLING="VERIF_TAKE=$stride VERIF_STRIDE=$SHARDS"
+  fi
   for sh in $(seq 0 $((nsh-1))); do
-    ( cd /verif/harness && VERIF_SANITIZER=$SANNAME VERIF_STRIDE=$stride VERIF_INNER=$inner VERIF_SHARD=$sh VERIF_JOBS=1 VERIF_SEED=$SEED \
+    ( cd /verif/harness && env VERIF_SANITIZER=$SANNAME $SAMPLING VERIF_INNER=$inner VERIF_SHARD=$sh VERIF_JOBS=1 VERIF_SEED=$SEED \
         timeout $BUDGET $RUN $ID --tier quick > "$OUT/$ID-$tool-$sh.log" 2>&1; echo $? > "$OUT/$ID-$tool-$sh.rc" ) &
     pids="$pids $!"
   done
